@@ -108,7 +108,7 @@ prop('C15', title='Shipped transports deliver messages intact and in order',
      technique='Kani: loop-free full-domain harnesses on the real error-kind table and 128-bit id codec functions (complete proofs, not bounded)',
      level_text='Proof by CBMC over the full input domain of tarpc\'s own wire tables (error kinds both directions incl. the primitive type written); the framing/codec layers are dependency code and enter as assumptions.',
      level_note='Only tarpc-owned encoding functions are under contract.',
-     kani=['k1_errorkind_written_as_u32_code', 'k1_errorkind_read_total_and_table', 'k1_errorkind_round_trip', 'k1_u128_round_trip_le_bytes'],
+     kani=['k1_errorkind_written_as_u32_code', 'k1_errorkind_read_total_and_table', 'k1_errorkind_round_trip', 'k1_u128_round_trip_le_bytes', 'k1_cancel_shape_is_value_independent', 'k1_request_shape_is_value_independent'],
      assumptions=['A-codec', 'A-verifiers'],
      not_covered='length-delimited framing under fragmentation, serde-derived schemas, FIFO of the tokio/futures queues and end-of-stream signalling are dependency code (A-codec, A-mpsc): not claimed')
 
@@ -156,7 +156,7 @@ prop('C12', title='Per-channel request limit throttles exactly the excess',
      level_note='Known finding F7: the last clause fails on the real code (limit tested before the inner read).')
 
 prop('C19', title='Request hooks run in order and short-circuit correctly',
-     kani=['k4_hook_then_serve', 'k4_serve_then_hook', 'k4_before_and_after', 'k4_chain_api_order_and_short_circuit', 'k4_empty_chain_is_identity', 'k4_after_wraps_inner_before_error', 'k4_cons_first_then_rest_any_rest'],
+     kani=['k4_hook_then_serve', 'k4_serve_then_hook', 'k4_before_and_after', 'k4_chain_api_order_and_short_circuit', 'k4_empty_chain_is_identity', 'k4_after_wraps_inner_before_error', 'k4_cons_first_then_rest_any_rest', 'k4_cons_then_appends_at_end_any_rest', 'k4_chain_of_three_order'],
      technique=TECH_K + '; generic code instantiated with nondeterministic hooks/handlers (symbolic pass/fail, context and result mutation, event recorder); list length by structural induction (Cons with arbitrary Rest)',
      assumptions=['A-verifiers'],
      level_text='CBMC proof on the real generic combinators with fully nondeterministic hook and handler behaviour: order, context threading, short-circuit, exactly-once after-hook (also on inner errors), result pass-through and rewrite; BeforeRequestCons is proved against an arbitrary rest (induction step) and Nil as base, so every chain length is covered.',
